@@ -211,12 +211,13 @@ pub fn program_seeds(quick: bool) -> Vec<(String, String)> {
 pub fn witness_module_seeds() -> Vec<(String, String)> {
     vec![
         ("wit-module".into(), "mod witness {\n    const A: u8 = 5;\n    const B: (u16, bool) = (0xbeef, true);\n    const C: List<u8, 4> = list![1, 2];\n    const D: [u8; 2] = 0x0102;\n    const E: Either<u8, Option<u1>> = Right(Some(1));\n}\n".into()),
+        ("wit-module-nonascii".into(), "mod witness { /* ööööö語🦀 */ const A: u8 = /* öööö */ 5; /* 語語語 */ const B: (u16, bool) = (/* 🦀🦀🦀🦀 */ 7, true); }\n".into()),
         ("param-module".into(), "mod param {\n    const KEY: u256 = 0x79be667ef9dcbbac55a06295ce870b07029bfcdb2dce28d959f2815b16f81798;\n    const N: u32 = 1_000;\n}\nmod witness {}\n".into()),
     ]
 }
 
 pub fn json_seeds() -> Vec<(String, String)> {
-    let mut out = vec![("json-small".to_string(), "{\n    \"A\": {\n        \"value\": \"Left(0x01)\",\n        \"type\": \"Either<u8, [u8; 2]>\"\n    },\n    \"B\": { \"value\": \"(1, true)\", \"type\": \"(u8, bool)\" }\n}\n".to_string())];
+    let mut out = vec![("json-nonascii".to_string(), "{ \"A\": { \"value\": \"/* ööööö語🦀 */ (1, /* öööö */ 2)\", \"type\": \"/* 語語語 */ (u8, u8)\" } }\n".to_string()), ("json-small".to_string(), "{\n    \"A\": {\n        \"value\": \"Left(0x01)\",\n        \"type\": \"Either<u8, [u8; 2]>\"\n    },\n    \"B\": { \"value\": \"(1, true)\", \"type\": \"(u8, bool)\" }\n}\n".to_string())];
     for (n, t) in files_with_ext("wit").into_iter().take(3) {
         out.push((n, t));
     }
